@@ -31,7 +31,7 @@ func CanonicalizeSource(source string) string {
 	source = strings.ReplaceAll(source, "\r\n", "\n")
 	// A lone CR is blank space to the lexer, not a line break: turning it
 	// into a newline would split a statement in two and change the program.
-	source = strings.ReplaceAll(source, "\r", " ")
+	source = blankLoneCR(source)
 
 	lines := strings.Split(source, "\n")
 	var out []string
@@ -78,6 +78,40 @@ func CanonicalizeSource(source string) string {
 		return ""
 	}
 	return strings.Join(out, "\n") + "\n"
+}
+
+// blankLoneCR replaces every CR that is code (outside string literals and
+// comments) by a space. A CR inside a string literal is part of the string's
+// value and one inside a comment is part of the comment: both stay as they
+// are. Strings and comments end at the line break at the latest.
+func blankLoneCR(source string) string {
+	if !strings.Contains(source, "\r") {
+		return source
+	}
+	b := []byte(source)
+	var quote byte
+	inComment := false
+	for i := 0; i < len(b); i++ {
+		ch := b[i]
+		switch {
+		case ch == '\n':
+			quote, inComment = 0, false
+		case inComment:
+		case quote != 0:
+			if ch == '\\' && i+1 < len(b) && b[i+1] != '\n' {
+				i++
+			} else if ch == quote {
+				quote = 0
+			}
+		case ch == '"' || ch == '\'':
+			quote = ch
+		case ch == '#' || (ch == '/' && i+1 < len(b) && b[i+1] == '/'):
+			inComment = true
+		case ch == '\r':
+			b[i] = ' '
+		}
+	}
+	return string(b)
 }
 
 // scanBrackets counts bracket opens and closes on a single line, ignoring
